@@ -134,3 +134,18 @@ def run(ctx):
         if not name.startswith("flat-parabola"):      # (the dense sampling is too coarse for the 4-unit gap of the flat parabola: analytic count)
             ctx.check(trans == expected, "corpus expectation is wrong (harness self-check)", {"pair": name}, expected, trans)
         ctx.check(len(pts) == expected, "curved pair: number of distinct crossings", {"pair": name}, expected, len(pts), sig={"family": "curved", "pair": name})
+        # the same curve OBJECTS after in-place similarity maps applied to both (caches of the first query are warm): the crossings move with the drawing
+        if name in ("circle-square", "circle-triangle", "circle-smallsquare"):
+            for tname, tf in (("rotate90", lambda J: J.rotate(90, degrees=True)), ("reflect", lambda J: J.scale(1, -1)), ("scale3", lambda J: J.scale(3, 3)), ("rotate-37", lambda J: J.rotate(-37, degrees=True))):
+                float(A); float(B)
+                tf(A); tf(B)
+                got2 = A.intersection(B, equal_beziers=False, end_points=True)
+                bad2 = []
+                for (a, b, u, v) in got2:
+                    pa, pb = A.segments[a](u), B.segments[b](v)
+                    if not (0 <= u <= 1 and 0 <= v <= 1 and abs(float(pa[0] - pb[0])) <= 1e-6 and abs(float(pa[1] - pb[1])) <= 1e-6):
+                        bad2.append((a, b, float(u), float(v)))
+                pts2 = {(round(float(A.segments[a](u)[0]), 4), round(float(A.segments[a](u)[1]), 4)) for a, b, u, v in got2}
+                ctx.case("curved-intersection-history", (name, tname))
+                ctx.check(not bad2, "curved crossing tuple is not a common point after an in-place map of both curves", {"pair": name, "map": tname}, None, bad2[:3])
+                ctx.check(len(pts2) == expected, "curved pair: number of distinct crossings changed after an in-place similarity map of both curves", {"pair": name, "map": tname}, expected, len(pts2))
